@@ -5,6 +5,7 @@
 import AL.Impl.Api
 import AL.Properties.C11
 import AL.Properties.KernelDefs
+import AL.Properties.KernelDefs4
 import AL.Spec.X86Families
 import AL.Spec.X86FamiliesExtra
 import AL.Impl.Faults
@@ -135,6 +136,14 @@ def step (st : DState) (line : String) : DState × String :=
     let fl := if flags == "-" then [] else (flags.splitOn ",").filterMap parseCliFlag
     let out := cliStdout fl (stdin == "1") (if prog == "missing" then none else some (unhex prog))
     (st, if out.isEmpty then "-" else toHex out)
+  | ["KF4"] =>
+    -- C04: the list-level family of the kernel-checked theorem AL.Properties.Kernel.c04_two_operand_forms is, text by text, what the
+    -- String renderer writes for the same entries (the register forms of `famC04` for entries with at most two register operands)
+    let a := AL.Properties.Kernel.entriesC04.flatMap fun en =>
+      (AL.Spec.X86.items {} (AL.Spec.X86.enumEnc AL.Properties.Kernel.fillC04 en)).map fun it => it.text.toList.map Char.toNat
+    let b := AL.Properties.Kernel.entriesC04.flatMap fun en => (AL.Spec.X86.enumEnc AL.Properties.Kernel.fillC04 en).filterMap fun d =>
+      AL.Properties.Kernel.lineL4 d.mn d.ops
+    (st, toString a.length ++ " " ++ toString b.length ++ " " ++ (if a == b then "same" else "different"))
   | ["KF"] =>
     -- C01: the list-level family of the kernel-checked theorem AL.Properties.Kernel.c01_every_instance is, text by text and in the
     -- same order, the family `famC01` this check runs on the C code (rendered through `String`)
